@@ -24,6 +24,7 @@ from golem.core.optimisers.fitness import null_fitness
 from golem.core.optimisers.opt_history_objects.individual import GraphEvalResult
 from golem.core.optimisers.graph import OptGraph, OptNode
 from golem.core.optimisers.objective import Objective
+from golem.core.optimisers.objective.objective_eval import ObjectiveEvaluate
 from golem.core.optimisers.opt_history_objects.individual import Individual
 from golem.core.optimisers.timer import OptimisationTimer, Timer
 
@@ -65,7 +66,8 @@ class Metric:
     def __init__(self, k, table, delays, path, oid=0):
         self.k, self.table, self.delays, self.path, self.oid = k, table, delays, path, oid
 
-    def __call__(self, graph):
+    def __call__(self, graph, scale=1.0, offset=0.0):
+        # scale / offset arrive as keyword arguments of an ObjectiveEvaluate(objective, scale=..., offset=...)
         g = label_of(graph)
         _append(self.path, 'm %d %d %d\n' % (self.k, g, self.oid))      # oid tells objectives apart
         d = self.delays.get(g, 0) if self.k == 0 else 0
@@ -78,7 +80,7 @@ class Metric:
             return None
         if b == 'nan':
             return float('nan')
-        return float(b)
+        return scale * float(b) + offset
 
 
 class Callback:
@@ -231,8 +233,23 @@ def canon_fit(f):
     return ['M' if isinstance(f, MultiObjFitness) else 'S', vals]
 
 
-def make_timer(t):
+SHARED_BUDGET_S = 600
+
+
+def make_timer(t, shared=None):
     kind = t['kind']
+    if kind == 'shared_opt':
+        # ONE OptimisationTimer object (10 minutes) re-entered in every round of the session; elapsed time is
+        # simulated by moving the start set by __enter__ into the past (no waiting)
+        shared.__enter__()
+        if t['phase'] == 'expired':
+            shared.start -= datetime.timedelta(seconds=SHARED_BUDGET_S + 1)
+        elif t['phase'] == 'left_after_estimate':
+            shared.start -= datetime.timedelta(seconds=0.6 * SHARED_BUDGET_S)
+            # one more iteration like the first would not fit: the caller is told to stop iterating ...
+            t['estimate_said_reached'] = bool(shared.is_time_limit_reached(iteration_num=1))
+            # ... and evaluates its final candidates in the 40 % of the budget that are left
+        return shared, shared
     if kind == 'none':
         return None, None
     if kind == 'fake':
@@ -259,7 +276,7 @@ def make_timer(t):
 def timer_pattern(t):
     if t['kind'] == 'fake':
         return list(t['pattern']), bool(t['rest'])
-    if t['kind'].startswith('expired') or t['kind'] == 'tiny':
+    if t['kind'].startswith('expired') or t['kind'] == 'tiny' or (t['kind'] == 'shared_opt' and t['phase'] == 'expired'):
         return [], True
     return [], False
 
@@ -282,7 +299,7 @@ def make_dispatcher(run, dg, adapter=None):
 _OBJECTIVE_IDS = [0]
 
 
-def dispatch_step(disp, sc, run, tmpdir, cb_tag='c', abort_at=None):
+def dispatch_step(disp, sc, run, tmpdir, cb_tag='c', abort_at=None, shared_timer=None):
     """set the callback and dispatch(objective, timer) on `disp`; returns what run_step needs"""
     path = os.path.join(tmpdir, 'events.log')
     table = {int(k): v for k, v in sc['table'].items()}
@@ -291,8 +308,11 @@ def dispatch_step(disp, sc, run, tmpdir, cb_tag='c', abort_at=None):
     oid = _OBJECTIVE_IDS[0]
     metrics = {'m%d' % k: Metric(k, table, delays, path, oid) for k in range(sc['nmetrics'])}
     objective = Objective(metrics, is_multi_objective=sc['multi'])
+    if sc.get('objective_kwargs'):
+        # the objective handed to dispatch() is an ObjectiveEvaluate whose keyword arguments reach the metrics
+        objective = ObjectiveEvaluate(objective, **sc['objective_kwargs'])
     disp.set_graph_evaluation_callback(AbortingCallback(path, cb_tag, abort_at) if abort_at else Callback(path, cb_tag))
-    timer, entered = make_timer(sc['timer'])
+    timer, entered = make_timer(sc['timer'], shared_timer)
     h = {'sc': sc, 'path': path, 'oid': oid, 'cb_tag': cb_tag, 'entered': entered, 'evaluator': None, 'raised': None}
     try:
         h['evaluator'] = disp.dispatch(objective, timer)
@@ -356,10 +376,10 @@ def close_step(h):
         h['entered'] = None
 
 
-def evaluate_step(disp, delegate, sc, run, tmpdir, pop=None, cb_tag='c', abort_at=None):
+def evaluate_step(disp, delegate, sc, run, tmpdir, pop=None, cb_tag='c', abort_at=None, shared_timer=None):
     """dispatch(objective, timer) + set callback + one evaluation on `disp`; canonical observation.
     Returns (observation, population objects)."""
-    h = dispatch_step(disp, sc, run, tmpdir, cb_tag, abort_at)
+    h = dispatch_step(disp, sc, run, tmpdir, cb_tag, abort_at, shared_timer)
     try:
         return run_step(h, delegate, pop)
     finally:
@@ -377,9 +397,10 @@ def observe_session(ses, tmpdir):
     run = {'par': ses['par'], 'n_jobs': ses['n_jobs']}
     disp, delegate = make_dispatcher(run, ses.get('delegate'))
     out, pop = [], None
+    shared = OptimisationTimer(timeout=datetime.timedelta(seconds=SHARED_BUDGET_S)) if ses.get('shared_timer') else None
     for st in ses['steps']:
         ob, pop = evaluate_step(disp, delegate, st['sc'], run, tmpdir, pop=pop if st.get('reuse') else None,
-                                cb_tag=st.get('cb', 'c'), abort_at=st.get('abort_at'))
+                                cb_tag=st.get('cb', 'c'), abort_at=st.get('abort_at'), shared_timer=shared)
         ob['aborted'] = bool(st.get('abort_at'))
         out.append((st['sc'], run, ob))
     return out
@@ -418,7 +439,12 @@ def coq_case(sc, run, ob):
     if dg and dg['enabled']:
         dspec = '{| d_add := %s; d_mul := %s; d_drop := %s |}' % (c_nat(dg['add']), c_nat(dg['mul']), c_nat(dg['drop']))
     pop = c_list([coq_ind(u, f, g) for u, f, g in zip(ob['uids'], ob['pre'], ob['labels'])], 'ind')
-    tbl = c_list(['(%s, %s)' % (c_nat(int(g)), c_list([coq_mres(b) for b in row], 'mres'))
+    kw = sc.get('objective_kwargs') or {}
+    scale, offset = kw.get('scale', 1.0), kw.get('offset', 0.0)
+
+    def eff(b):      # the objective is the ObjectiveEvaluate: metric value = scale * table value + offset
+        return b if isinstance(b, str) else scale * float(b) + offset
+    tbl = c_list(['(%s, %s)' % (c_nat(int(g)), c_list([coq_mres(eff(b)) for b in row], 'mres'))
                   for g, row in sorted(sc['table'].items(), key=lambda kv: int(kv[0]))], '(graph * list mres)')
     case = ('{| c_par := %s; c_ordered := %s; c_pop := %s; c_tbl := %s; c_nmetrics := %s; c_multi := %s; '
             'c_timer := %s; c_timer_rest := %s; c_delegate := %s |}') % (
@@ -514,7 +540,10 @@ def gen_scenario(rng, n, allow_fake_timer=True, allow_delegate=True, force=None)
         for gin in ([d['label'] for d in reversed(pop)], [d['label'] for d in pop]):
             for g in delegate_images(delegate['add'], delegate['mul'], 0, gin):
                 table.setdefault(str(g), gen_row(rng, nmetrics, p_fail))
-    return {'pop': pop, 'table': table, 'nmetrics': nmetrics, 'multi': multi, 'timer': timer, 'delegate': delegate}
+    sc = {'pop': pop, 'table': table, 'nmetrics': nmetrics, 'multi': multi, 'timer': timer, 'delegate': delegate}
+    if rng.random() < 0.3:
+        sc['objective_kwargs'] = {'scale': rng.choice([2.0, 0.5, 4.0, -1.0]), 'offset': rng.choice([0.0, 1.0, -0.5])}
+    return sc
 
 
 def gen_session(rng, par, n_jobs):
@@ -545,6 +574,18 @@ def gen_session(rng, par, n_jobs):
     if rng.random() < 0.3:
         dg = {'add': 100, 'mul': rng.choice([0, 20]), 'drop': rng.choice([0, 0, 1]), 'enabled': rng.random() < 0.85}
     limited = ['expired', 'expired_opt', 'tiny']
+    if rng.random() < 0.3:
+        # ONE OptimisationTimer object re-entered in every round: expired in one round, time left in the next;
+        # is_time_limit_reached(iteration_num=1) answering "reached" from its estimate before a round with time left
+        phases = rng.choice([['expired', 'left'], ['left', 'expired', 'left'], ['left_after_estimate', 'left'],
+                             ['expired', 'left_after_estimate'], ['expired', 'expired', 'left']])
+        steps = []
+        for ph in phases:
+            sc = gen_scenario(rng, rng.choice([1, 2, 3, 4, 6]), allow_fake_timer=False, allow_delegate=False,
+                              force={'timer': 'none', 'delegate': dict(dg) if dg else None, 'share': False})
+            sc['timer'] = {'kind': 'shared_opt', 'phase': ph}
+            steps.append({'sc': sc, 'cb': rng.choice(['c', 'k']), 'reuse': False})
+        return {'par': par, 'n_jobs': n_jobs, 'delegate': dg, 'steps': steps, 'shared_timer': True}
     shape = rng.random()
     if shape < 0.4:
         timers = [rng.choice(limited), 'none'] + [rng.choice(limited + free) for _ in range(rng.choice([0, 0, 1, 2]))]
@@ -666,7 +707,8 @@ def classify(sc, run, ob):
     fails = sum(1 for d in news if any(isinstance(b, str) for b in sc['table'][str(d['label'])]))
     mix = 'none-new' if not news else 'all-fail' if fails == len(news) else 'all-ok' if fails == 0 else 'mixed'
     return dict(dispatcher='as-completed' if run.get('completion') else 'parallel' if run['par'] else 'sequential', n_jobs=run['n_jobs'] if run['par'] else 0,
-                size=len(sc['pop']), timer=sc['timer']['kind'], failures=mix,
+                size=len(sc['pop']), timer=sc['timer']['kind'] + ('/' + sc['timer']['phase'] if 'phase' in sc['timer'] else ''),
+                objective_kwargs=bool(sc.get('objective_kwargs')), failures=mix,
                 pre_evaluated='some' if pre else 'none', in_place=any(d['kind'] == 'inplace' for d in sc['pop']), repeated=any(d['kind'] == 'rep' for d in sc['pop']),
                 delegate=('enabled' if sc['delegate']['enabled'] else 'disabled') if sc.get('delegate') else 'absent',
                 objective='multi' if sc['multi'] else 'single', metrics=sc['nmetrics'],
